@@ -220,8 +220,8 @@ def generate(wd, tier, devs, out):
 
 DRIVE_PLAN_QUICK = [
     dict(name="mix8", args=["--max", "8", "--waves", "8"]),
-    dict(name="max1", args=["--max", "1", "--waves", "2", "--kinds", "storm,h1"]),
-    dict(name="max20", args=["--max", "20", "--waves", "2", "--kinds", "storm,perip"]),
+    dict(name="max1", args=["--max", "1", "--waves", "2", "--kinds", "storm,h1", "--zombie", "1"]),
+    dict(name="max20", args=["--max", "20", "--waves", "3", "--kinds", "storm,perip,h1", "--zombie", "1"]),
 ]
 
 
@@ -249,10 +249,16 @@ def drive(wd, tier, bins, out):
 def unmatched(tr):
     """the first event TLC could not explain"""
     import re
-    m = re.search(r'"first unmatched event",\s*(\[.*?\])>>', tr["out"], re.S)
-    txt = m.group(1) if m else ""
-    k = re.search(r'ev \|-> "(\w+)"', txt)
-    return (k.group(1) if k else "?"), " ".join(txt.split())[:600]
+    txt = ""
+    k = tr["out"].find("first unmatched event")
+    if k >= 0:
+        txt = " ".join(tr["out"][k:k + 1500].split())
+        end = txt.find("]>>")
+        if end < 0:
+            end = txt.find("] >>")
+        txt = txt[txt.find("[") if "[" in txt else 0:end + 1 if end >= 0 else 700]
+    m = re.search(r'ev \|-> "(\w+)"', txt)
+    return (m.group(1) if m else "?"), txt[:700]
 
 
 def canary(wd, trace):
